@@ -206,3 +206,26 @@ func (i *interpreter) newError(msg value) value {
 }
 
 func (i *interpreter) nilError() value { return iface{} }
+
+// nativeToValue imports strings, bools, ints and (nested) slices of them.
+func nativeToValue(x interface{}) value {
+	rv := reflect.ValueOf(x)
+	switch rv.Kind() {
+	case reflect.String:
+		return rv.String()
+	case reflect.Bool:
+		return rv.Bool()
+	case reflect.Int:
+		return int(rv.Int())
+	case reflect.Slice:
+		if rv.IsNil() {
+			return []value(nil)
+		}
+		out := make([]value, rv.Len())
+		for k := range out {
+			out[k] = nativeToValue(rv.Index(k).Interface())
+		}
+		return out
+	}
+	panic(unsupported{fmt.Sprintf("nativeToValue %T", x)})
+}
